@@ -259,6 +259,95 @@ theorem reach_hered {Q : Val → Prop} (hq : Hered Q) :
     | _ => simp [reach] at hm
 
 
+/-! ### the matcher's candidates are the values the path reaches -/
+
+theorem cands_foldl_eq_reach (p : String) (ps : List String) (hp : pyInt? p = none)
+    (ih : ∀ d cs, cands ps d = .ok cs → cs = reach ps d) (xs : List Val) :
+    ∀ (acc cs : List (Option Val)),
+      xs.foldlM (fun acc x =>
+        match x with
+        | .doc fs =>
+          match dget p fs with
+          | some v => (cands ps v).map (acc ++ ·)
+          | none => .ok (acc ++ [none])
+        | _ => (.ok acc : R (List (Option Val)))) acc = .ok cs →
+      cs = acc ++ reach (p :: ps) (.arr xs) := by
+  induction xs with
+  | nil => intro acc cs h; simp [List.foldlM, pure, Except.pure] at h; simp [h, reach, hp]
+  | cons x xs ihx =>
+    intro acc cs h
+    simp only [List.foldlM, bind, Except.bind] at h
+    have hcons : ∀ ys, reach (p :: ps) (.arr (x :: xs)) = ys ++ reach (p :: ps) (.arr xs) →
+        ∀ acc', cs = acc' ++ reach (p :: ps) (.arr xs) → acc' = acc ++ ys →
+        cs = acc ++ reach (p :: ps) (.arr (x :: xs)) := by
+      intro ys e1 acc' e2 e3; rw [e1, e2, e3, List.append_assoc]
+    cases x with
+    | doc fs =>
+      simp only at h
+      cases hg : dget p fs with
+      | none =>
+        simp only [hg] at h
+        exact hcons [none] (by simp [reach, hp, hg, List.flatMap_cons]) _ (ihx _ _ h) rfl
+      | some v =>
+        simp only [hg] at h
+        cases hc : cands ps v with
+        | error e => simp [hc, Except.map] at h
+        | ok cv =>
+          simp only [hc, Except.map] at h
+          exact hcons cv (by simp [reach, hp, hg, List.flatMap_cons, ih v cv hc]) _ (ihx _ _ h) rfl
+    | _ =>
+      simp only at h
+      exact hcons [] (by simp [reach, hp, List.flatMap_cons]) _ (ihx _ _ h) (by simp)
+
+/-- wherever the matcher follows a path (no negative index), it reaches exactly the values the
+    rules say the path reaches (`reach`) -/
+theorem cands_eq_reach : ∀ (ps : List String) (d : Val) (cs : List (Option Val)),
+    cands ps d = .ok cs → cs = reach ps d := by
+  intro ps
+  induction ps with
+  | nil => intro d cs h; simp [cands] at h; simp [reach, h]
+  | cons p ps ih =>
+    intro d cs h
+    cases d with
+    | doc fs =>
+      cases ps with
+      | nil =>
+        simp only [cands, Except.ok.injEq] at h
+        subst h
+        cases hg : dget p fs <;> simp [reach, hg]
+      | cons q qs =>
+        simp only [cands] at h
+        cases hg : dget p fs with
+        | some v => simp only [hg, Option.getD_some] at h; simp only [reach, hg]; exact ih v cs h
+        | none =>
+          simp only [hg, Option.getD_none] at h
+          have := ih (.doc []) cs h
+          simp only [reach, hg]
+          simpa [reach, dget] using this
+    | arr xs =>
+      simp only [cands] at h
+      simp only [reach]
+      cases hp : pyInt? p with
+      | none =>
+        simp only [hp] at h
+        simpa [reach, hp] using cands_foldl_eq_reach p ps hp ih xs [] cs h
+      | some i =>
+        simp only [hp] at h
+        by_cases hi : i < 0
+        · simp [hi, unmodelled] at h
+        · simp only [hi, ↓reduceIte] at h ⊢
+          cases hx : xs[i.toNat]? with
+          | none => simp only [hx, Except.ok.injEq] at h; exact h.symm
+          | some v => simp only [hx] at h; exact ih v cs h
+    | null => simp only [cands, Except.ok.injEq] at h; simp [reach, h]
+    | bool b => simp only [cands, Except.ok.injEq] at h; simp [reach, h]
+    | int b => simp only [cands, Except.ok.injEq] at h; simp [reach, h]
+    | dbl m e => simp only [cands, Except.ok.injEq] at h; simp [reach, h]
+    | str b => simp only [cands, Except.ok.injEq] at h; simp [reach, h]
+    | date u o => simp only [cands, Except.ok.injEq] at h; simp [reach, h]
+    | oid b => simp only [cands, Except.ok.injEq] at h; simp [reach, h]
+
+
 /-! ### Python `==` is BSON equality on clean values -/
 
 theorem numEq_comm (a b : Num) : Num.eq a b = Num.eq b a := by
